@@ -858,7 +858,15 @@ func (w *WAL) Save(st raftpb.HardState, ents []raftpb.Entry) error {
 		return nil
 	}
 
-	return w.cut()
+	if err := w.cut(); err != nil {
+		return err
+	}
+	if fsync && w.optimizedFsync {
+		// cut only flushes in the optimized fsync mode, but a changed vote or term
+		// must reach the disk before Save returns
+		return w.sync(true)
+	}
+	return nil
 }
 
 func (w *WAL) SaveSnapshot(e walpb.Snapshot) error {
